@@ -53,7 +53,7 @@ MUTANTS = [
     M('sema:designator:drop-error', 'sema', ['C09'], 'designator_to_asg', 'context.insert_error(ConstIntegerError, literal);', ''),
     M('sema:decl:literal-error-dropped', 'sema', ['C08'], 'classical_declaration_statement_to_asg_stmt', '                context.insert_error(IncompatibleTypesError, type_decl);\n                return declare_classical_helper(symbol_id, Some(initializer), context);', '                return declare_classical_helper(symbol_id, Some(initializer), context);'),
     M('sema:decl:bind-before-initializer', 'sema', ['C07'], 'classical_declaration_statement_to_asg_stmt', '    let initializer = expr_to_asg_texpr(type_decl.expr(), context);\n    let symbol_id = context.new_binding(name_str.as_ref(), &lhs_type, type_decl);', '    let symbol_id = context.new_binding(name_str.as_ref(), &lhs_type, type_decl);\n    let initializer = expr_to_asg_texpr(type_decl.expr(), context);'),
-    M('sema:assign:no-mutate-const-error', 'sema', ['C13', 'C08'], 'assignment_stmt_to_asg_stmt', 'context.insert_error(MutateConstError, assignment_stmt);', ''),
+    M('sema:assign:no-mutate-const-error', 'sema', ['C13', 'C08'], 'assignment_stmt_to_asg_stmt', '            context.insert_error(MutateConstError, assignment_stmt);\n        }\n        return stmt_asg;', '        }\n        return stmt_asg;'),
     M('sema:assign:cast-dropped', 'sema', ['C08'], 'assignment_stmt_to_asg_stmt', 'expr = asg::Cast::new(expr, promoted_type).to_texpr()', 'expr = expr'),
     M('sema:binexpr:quantum-left-unreported', 'sema', ['C13'], 'expr_to_asg_texpr', 'context.insert_error(IncompatibleTypesError, &bin_expr.lhs().unwrap());', ''),
     M('sema:return:always-reported', 'sema', ['C13'], 'expr_to_asg_texpr', 'if context.symbol_table().current_scope_type() == ScopeType::Global {', 'if true {'),
@@ -119,6 +119,7 @@ MUTANTS = [
     M('sema:include:stdgates-guarded', 'sema', ['C07'], 'syntax_to_semantic', 'context.standard_library_gates(&include);', 'if context.symbol_table().lookup("h").is_err() { context.standard_library_gates(&include); }'),
     M('sema:cast:node-dropped', 'sema', ['C08'], 'expr_to_asg_texpr', 'Some(asg::Cast::new(expr.unwrap(), typ).to_texpr())', 'Some(expr.unwrap())'),
     M('sema:operand:indexed-bit-accepted', 'sema', ['C13'], 'gate_operand_to_asg_texpr', 'if !matches!(typ, Type::QubitArray(_)) {', 'if !matches!(typ, Type::QubitArray(_) | Type::BitArray(..)) {'),
+    M('sema:assign:const-element-not-reported', 'sema', ['C13'], 'assignment_stmt_to_asg_stmt', 'matches!(typ, Type::BitArray(_, IsConst::True))', 'false'),
     # ---- PARSER marker discipline
     M('parser:marker:complete-wrong-slot', 'parser', ['C01', 'C02'], 'Marker::complete', 'let idx = self.pos as usize;', 'let idx = (self.pos as usize) + 1;'),
     M('parser:marker:abandon-always-pops', 'parser', ['C01', 'C02'], 'Marker::abandon', 'if idx == p.events.len() - 1 {', 'if idx <= p.events.len() - 1 {'),
